@@ -58,6 +58,14 @@ Theorem C18_vtt_internal_origin_partial : forall oracle items k,
 Proof. exact vtt_views_partial. Qed.
 Print Assumptions C18_vtt_internal_origin_partial.
 
+(* variant model with `subtitle_text = ""` before the loop (the obvious repair): the payload trigger disappears.  If the repository
+   is repaired this way the correspondence selects this variant and the check keeps deciding the property *)
+Theorem C18_vtt_repaired_variant_partial : forall oracle items k,
+  items <> [] -> vtt_any_overflow items = false ->
+  vtt_views_fixed oracle items = Internal k -> In (SubInternal k) oracle.
+Proof. exact vtt_views_fixed_partial. Qed.
+Print Assumptions C18_vtt_repaired_variant_partial.
+
 (* _TextCueParser without ruby markup: no internal error unless an end tag closes nothing (vtt-stray-end-tag);
    with <ruby>/<rt> the unconditional statement is false (vtt-rt-outside-ruby, vtt-ruby-structure) and nothing is proved *)
 Theorem C18_vtt_cursor_partial : forall attached events,
